@@ -111,6 +111,8 @@ package main
 //@                          ==> forall k string :: (k in processed) ==> k == as(to, string) && k != "ws" && k != "http" && k != "timers"
 //@   loop 1 invariant[C14] !all ==> len(mids) <= 1 && (len(mids) == 1 && is(msg, map[string]interface{}) && old("to" in as(msg, map[string]interface{})) && is(to, string) ==> mids[0] == as(to, string) && mids[0] != "ws" && mids[0] != "http" && mids[0] != "timers")
 //@   loop 2 invariant[C14] !all ==> len(mids) <= 1 && (len(mids) == 1 && is(msg, map[string]interface{}) && old("to" in as(msg, map[string]interface{})) && is(to, string) ==> mids[0] == as(to, string) && mids[0] != "ws" && mids[0] != "http" && mids[0] != "timers")
+//@   ensures[C14] everyone: processed != nil ==> forall j int :: 0 <= j && j < len(mids) && (mids[j] in s.crew.Machines) ==> (mids[j] in processed)
+//@   loop 2 invariant[C14] everyone: forall j int :: 0 <= j && j <= rangeindex && (mids[j] in s.crew.Machines) ==> (mids[j] in processed)
 //@   loop 2 invariant[C14] routedonly: !all ==> forall k string :: (k in processed) ==> len(mids) == 1 && k == mids[0]
 //@   loop 1 invariant forall k string :: (k in specs) ==> specs[k] != nil && wfSpec(specs[k])
 //@   loop 2 invariant forall k string :: (k in states) ==> states[k] != nil && (k in s.crew.Machines)
